@@ -49,6 +49,10 @@ func faultHistory(r *rand.Rand) ([]engine.Op, string) {
 	// afterwards: no more faults; sometimes the file is reopened right away (a commit attempt whose
 	// final sync failed may then be found committed), sometimes after an aborted transaction that
 	// flushed pages, sometimes never before further commits
+	if r.Intn(2) == 0 {
+		// let the background writer execute what is scheduled while the faults are still armed
+		ops = append(ops, engine.Op{Kind: "drain"})
+	}
 	ops = append(ops, engine.Op{Kind: "nofault"})
 	switch r.Intn(4) {
 	case 0:
@@ -77,18 +81,39 @@ func c08Run(cfg engine.Config, ops []engine.Op, big bool) (e *engine.Engine, han
 		if err != nil {
 			return
 		}
+		beginAt := 0 // length of the disk log when the open write transaction began
 		for _, op := range ops {
 			cur = op.String()
 			switch op.Kind {
 			case "nofault":
 				eng.Disk.Fault = nil
-			case "commit-must-succeed":
+			case "begin":
+				had := eng.Tx != nil
+				eng.Apply(op)
+				if !had && eng.Tx != nil {
+					beginAt = eng.Disk.LogLen()
+				}
+			case "commit", "commit-must-succeed":
 				if eng.Tx == nil {
+					if op.Kind == "commit" {
+						eng.Apply(op)
+					}
 					continue
 				}
 				res := eng.Apply(engine.Op{Kind: "commit"})
 				if res.Err != "" && res.Err != "oom" && !strings.Contains(res.Err, "PANIC") {
-					eng.Fail("after the I/O failures stopped a commit still fails: %s", res.Err)
+					// a Commit may only fail because of an I/O call that failed while this transaction was open
+					failed := false
+					for _, d := range eng.Disk.LogCopy()[beginAt:] {
+						if d.Failed {
+							failed = true
+						}
+					}
+					if !failed {
+						eng.Fail("spurious-commit-failure: Commit fails (%s) although no I/O call failed since the transaction began", res.Err)
+					} else if op.Kind == "commit-must-succeed" {
+						eng.Fail("after the I/O failures stopped a commit still fails: %s", res.Err)
+					}
 				}
 			default:
 				eng.Apply(op)
@@ -164,7 +189,18 @@ func c08Case(rep *Report, cfg engine.Config, ops []engine.Op, hseed int64, kinds
 	sig := "fault/" + failSig(first)
 	min := ops
 	if hang == "" && !rep.distinct["viol/"+sig] {
+		nofaults := func(o []engine.Op) (n int) {
+			for _, op := range o {
+				if op.Kind == "nofault" {
+					n++
+				}
+			}
+			return n
+		}
 		min = engine.Shrink(ops, func(c []engine.Op) bool {
+			if nofaults(c) != nofaults(ops) {
+				return false // the end of the fault phase is part of the scenario
+			}
 			e2, h2 := run(c)
 			return h2 == "" && e2 != nil && len(e2.Failures) > 0 && "fault/"+failSig(e2.Failures[0]) == sig
 		})
@@ -183,7 +219,7 @@ func init() {
 	register("c08", func(args []string) int {
 		f := parseFlags("c08", args)
 		rep := newReport("C08", f)
-		rep.Rule = "random histories with 1-3 injected fault directives (kind in {write error before effect, short write then error, sync, truncate, mmap, size}, the N-th next call of that kind, burst length 1-3), half of them placed right before a commit; after the faults a fault-free tail (two transactions that must commit, verify, reopen, verify). Oracle: no panic, no hang (20 s watchdog + lock state), map/ownership oracles in process, a reopen shows the last committed state or completely the state of the failed attempt. Non-trivial: distinct (config, fault plan)."
+		rep.Rule = "random histories with 1-3 injected fault directives (kind in {write error before effect, short write then error, sync, truncate, mmap, size}, the N-th next call of that kind, burst length 1-3), half of them placed right before a commit; after the faults a fault-free tail (two transactions that must commit, verify, reopen, verify). Oracle: no panic, no hang (20 s watchdog + lock state), a Commit fails only if an I/O call failed while its transaction was open, map/ownership oracles in process, a reopen shows the last committed state or completely the state of the failed attempt. Non-trivial: distinct (config, fault plan)."
 		if f.replay != "" {
 			rp, err := loadHistReplay(f.replay)
 			if err != nil {
@@ -208,6 +244,14 @@ func init() {
 		c08Case(rep, engine.Config{PageSize: 1024, MaxSize: 0},
 			[]engine.Op{{Kind: "begin"}, {Kind: "alloc", N: 100}, {Kind: "fault", P: 3, N: 0, Len: 1}, {Kind: "commit"}, {Kind: "nofault"}, {Kind: "verify"}},
 			102, "F3 mmap fails while the commit remaps a grown file")
+		// D16 (fixed): a flushed page write of a transaction that is rolled back fails; the next transaction commits
+		for _, end := range []string{"rollback", "close"} {
+			c08Case(rep, engine.Config{PageSize: 1024, MaxSize: 0},
+				[]engine.Op{{Kind: "begin"}, {Kind: "alloc", N: 2}, {Kind: "setfull", P: 0, Seed: 5}, {Kind: "commit"},
+					{Kind: "begin"}, {Kind: "alloc", N: 2}, {Kind: "setfull", P: 2, Seed: 6}, {Kind: "fault", P: 0, N: 0, Len: 1}, {Kind: "flush"}, {Kind: "drain"}, {Kind: end},
+					{Kind: "nofault"}, {Kind: "begin"}, {Kind: "alloc", N: 1}, {Kind: "setfull", P: 2, Seed: 7}, {Kind: "commit-must-succeed"}, {Kind: "verify"}},
+				103, "D16 failed flush of a transaction that ends in "+end)
+		}
 		for i := 0; i < n; i++ {
 			hseed := r.Int63()
 			hr := rand.New(rand.NewSource(hseed))
